@@ -92,6 +92,15 @@ theorem act_burst (sz : Sizes) (j : UdpJob) (a : Act) (hb : j.burst = true) (h0 
     · have := write_burst sz j b false hb (by simp) h0
       simp only [hl, if_false, Act.wrote, Option.bind_some]
       exact ⟨this.1, this.2.1, this.2.2.1, this.2.2.2, by simp⟩
+  | writeMsgU b ulen =>
+    unfold UdpJob.act
+    by_cases hl : ulen ≤ sz.udpBuf ∧ b.length ≤ sz.udpBuf
+    · have := write_burst sz { j with tx := overlay j.tx b } b true hb (by intro _; exact take_overlay _ _) h0
+      simp only [hl, and_self, if_true, Act.wrote, Option.bind_some]
+      exact ⟨this.1, (frame_tx j _).trans this.2.1, this.2.2.1, this.2.2.2, by simp⟩
+    · have := write_burst sz j b false hb (by simp) h0
+      simp only [hl, if_false, Act.wrote, Option.bind_some]
+      exact ⟨this.1, this.2.1, this.2.2.1, this.2.2.2, by simp⟩
 
 def dgOf (j : UdpJob) (b : Bytes) : Datagram := { dest := j.raddr, ctl := j.pktinfo.take j.pktinfoLen, body := b }
 
@@ -130,6 +139,15 @@ theorem act_direct (sz : Sizes) (j : UdpJob) (a : Act) (hb : j.burst = false) :
     by_cases hl : b.length ≤ sz.udpBuf
     · have := write_direct sz { j with tx := overlay j.tx b } b true hb
       simp only [hl, if_true, Act.wrote, Option.bind_some]
+      exact ⟨this.1, (frame_tx j _).trans this.2.1, this.2.2, by simp⟩
+    · have := write_direct sz j b false hb
+      simp only [hl, if_false, Act.wrote, Option.bind_some]
+      exact ⟨this.1, this.2.1, this.2.2, by simp⟩
+  | writeMsgU b ulen =>
+    unfold UdpJob.act
+    by_cases hl : ulen ≤ sz.udpBuf ∧ b.length ≤ sz.udpBuf
+    · have := write_direct sz { j with tx := overlay j.tx b } b true hb
+      simp only [hl, and_self, if_true, Act.wrote, Option.bind_some]
       exact ⟨this.1, (frame_tx j _).trans this.2.1, this.2.2, by simp⟩
     · have := write_direct sz j b false hb
       simp only [hl, if_false, Act.wrote, Option.bind_some]
